@@ -251,7 +251,11 @@ def store_rules(cfg, R, lib):
     for q, fs in lib.funcs.items():
         if not q.startswith('ace_time::'):
             continue
-        for f in fs[:1]:
+        seen_locs = set()
+        for f in fs:
+            if f.loc in seen_locs:
+                continue
+            seen_locs.add(f.loc)
             for e in all_exprs(f.body):
                 if e.k == 'call' and e.a[0] in sized:
                     callee, pairs = sized[e.a[0]]
@@ -281,7 +285,11 @@ def store_rules(cfg, R, lib):
     for q, fs in lib.funcs.items():
         if not q.startswith('ace_time::'):
             continue
-        for f in fs[:1]:
+        seen_locs = set()
+        for f in fs:
+            if f.loc in seen_locs:
+                continue
+            seen_locs.add(f.loc)
             for s in walk_stmts(f.body):
                 if s.k == 'assign' and s.a[0].k == 'index':
                     ix = s.a[0]
